@@ -315,6 +315,40 @@ def argument_mutation_rule(repo: Repo, prop: str, rule_id: str, floor: int = 5) 
                 w if w is not None else fn.node,
                 key=f"mutates:{p}",
             )
+    # ... and transformable entities handed to a constructor / factory are not moved or re-indexed in place: the element's own
+    # transformation methods re-bind coordinates part by part, which the array-level analysis above does not see
+    elem = repo.cls("base.element.ElementBase")
+    IN_PLACE = {"translate", "rotate", "scale", "mirror", "transform", "shear", "invert", "reorient", "shift", "update", "project", "add_edge", "remove_edges", "set_patch", "chop", "unchop", "project_edge", "project_corner", "project_side"}
+    seen_keys = {f.construct for f in r.findings} | {i.get("construct") if isinstance(i, dict) else getattr(i, "construct", None) for i in r.instances}
+    for fn in sorted(repo.all_functions(), key=lambda f: f.qualname):
+        first = 1 if fn.cls is not None and not fn.is_staticmethod else 0
+        env = None
+        done = set()
+        for c in ast.walk(fn.node):
+            if isinstance(c, ast.Call) and isinstance(c.func, ast.Attribute) and c.func.attr in IN_PLACE and isinstance(c.func.value, ast.Name) and c.func.value.id in fn.params[first:] and c.func.value.id not in done:
+                p = c.func.value.id
+                # a parameter re-bound to a copy before the call is a local object from then on
+                rebound = any(isinstance(st, ast.Assign) and any(isinstance(t, ast.Name) and t.id == p for t in st.targets) and st.lineno < c.lineno for st in ast.walk(fn.node))
+                if rebound:
+                    continue
+                if env is None:
+                    env = TypeEnv(repo, fn)
+                cls = st_cls(env.type_of(c.func.value))
+                if cls is None or not repo.is_subclass(cls, elem):
+                    continue
+                done.add(p)
+                if f"{fn.qualname}::mutates:{p}" in seen_keys:
+                    continue
+                if (fn.qualname, p) in MAY_MUTATE_ARGUMENT:
+                    r.ok(fn, f"modifies '{p}': {MAY_MUTATE_ARGUMENT[(fn.qualname, p)]}", key=f"mutates:{p}")
+                    continue
+                r.bad(
+                    fn,
+                    f"{fn.qualname} calls {p}.{c.func.attr}(...) on the {cls.name} it was handed: the caller's entity is moved / changed in place (a face used to build one operation is not where the caller left it "
+                    "when the next operation is built from it) - work on a copy()",
+                    c,
+                    key=f"mutates:{p}",
+                )
     return r
 
 
